@@ -68,14 +68,6 @@ theorem enc_inj (nc : Nat) : ∀ a a' : List Const, a.length = a'.length → inR
 
 /-! ### the decision procedure -/
 
-def termInb (n : Nat) : Term → Bool
-  | .const _ => true
-  | .var i => decide (i < n)
-
-def termCb (nc : Nat) : Term → Bool
-  | .const c => decide (c < nc)
-  | .var _ => true
-
 theorem termInb_sound {n : Nat} {t : Term} (h : termInb n t = true) : Term.inRange n t := by
   cases t with
   | const c => trivial
@@ -85,33 +77,6 @@ theorem termCb_sound {nc : Nat} {t : Term} (h : termCb nc t = true) : Term.cIn n
   cases t with
   | const c => exact of_decide_eq_true (p := c < nc) h
   | var i => trivial
-
-def atomOKb (nc n : Nat) (ar : Pred → Option Nat) (b : Atom) : Bool :=
-  (ar b.pred == some b.args.length) && b.args.all (fun t => termInb n t && termCb nc t)
-
-def litOKb (nc n : Nat) (ar : Pred → Option Nat) : Lit → Bool
-  | .pos b => atomOKb nc n ar b
-  | .neg b => atomOKb nc n ar b
-  | .tt => true
-
-def hasVar (i : Nat) : Lit → Bool
-  | .pos b => b.args.contains (.var i)
-  | _ => false
-
-def clauseOKb (nc : Nat) (ar : Pred → Option Nat) (p : Pred) : Clause → Bool
-  | .fact args _ _ => (ar p == some args.length) && inR nc args
-  | .rule head n body _ =>
-    (ar p == some head.length) && head.all (fun t => termInb n t && termCb nc t) && body.all (litOKb nc n ar) &&
-      (List.range n).all (fun i => body.any (hasVar i))
-
-def layoutOKb (P : Prog) (natoms : Nat) (arL : List (Pred × Nat)) : Bool :=
-  arL.all (fun x => decide (P.baseOf x.1 + P.nconsts ^ x.2 ≤ natoms) &&
-    arL.all (fun y => x.1 == y.1 || decide (P.baseOf x.1 + P.nconsts ^ x.2 ≤ P.baseOf y.1) ||
-      decide (P.baseOf y.1 + P.nconsts ^ y.2 ≤ P.baseOf x.1)))
-
-def specOKb (P : Prog) (natoms : Nat) (arL : List (Pred × Nat)) (rk : Nat → Nat) : Bool :=
-  GroundAcyclic.nodupB (P.defs.map (·.1)) && GroundAcyclic.wfB (inst P natoms) natoms rk &&
-    P.defs.all (fun d => d.2.all (clauseOKb P.nconsts (lookup arL) d.1)) && layoutOKb P natoms arL
 
 theorem mem_clausesOfFO {P : Prog} {p : Pred} {c : Clause} (h : c ∈ P.clausesOf p) : ∃ cs, (p, cs) ∈ P.defs ∧ c ∈ cs := by
   unfold Prog.clausesOf at h
